@@ -20,7 +20,8 @@
     APPEND/PREPEND  `path[]` on an existing array; missing field(s): created, the last one as a
                     one-element array.
     REMOVE_AT       final segment must be `[i]`; element removed.
-    REMOVE_VAL      first scalar element equal to the value removed; missing target: nothing.
+    REMOVE_VAL      first element (scalar or container) whose encoding equals the value's, both with
+                    the smallest headers, removed; missing target: nothing.
     MERGE           target map: every field of the value replaces the field of that name or is
                     appended (shallow); missing field(s): created, the last one holding the merge
                     of the value into the empty map.
@@ -137,18 +138,21 @@ def sRemoveAt (parent : Node) : Hit → Except Err Node
   | .target i => .ok (eraseChild parent i)
   | _ => .error .path
 
-/-- first scalar element whose encoding is `v` -/
-def dropFirst (v : Bytes) : List Node → List Node
+/-- the value's encoding with the smallest headers (a value that does not decode is itself) -/
+def canonVal (v : Bytes) : Bytes :=
+  match decode v with
+  | .ok d => serialize d
+  | .error _ => v
+
+/-- first element — scalar or container — whose encoding is `want` -/
+def dropFirst (want : Bytes) : List Node → List Node
   | [] => []
-  | x :: rest =>
-    match x with
-    | .leaf raw => if raw = v then rest else x :: dropFirst v rest
-    | _ => x :: dropFirst v rest
+  | x :: rest => if serialize x = want then rest else x :: dropFirst want rest
 
 def sRemoveVal (v : Bytes) (parent : Node) : Hit → Except Err Node
   | .target i =>
     match getChild parent i with
-    | some (.arr xs) => .ok (setChild parent i (.arr (dropFirst v xs)))
+    | some (.arr xs) => .ok (setChild parent i (.arr (dropFirst (canonVal v) xs)))
     | _ => .error .type
   | _ => .ok parent
 
